@@ -186,16 +186,24 @@ class Repo:
         # may override is not inlined into callers reached through `self` (nqsa/normalise.py)
         import re as _re
         defs_seen: Dict[str, int] = {}
+        texts = []
         for dirpath, dirnames, filenames in os.walk(base):
             for fn in filenames:
                 if fn.endswith(".py"):
                     try:
                         with open(os.path.join(dirpath, fn), "r", encoding="utf-8") as fh:
-                            for nm in _re.findall(r"^\s*(?:async\s+)?def\s+(_[A-Za-z0-9_]*)\s*\(", fh.read(), flags=_re.M):
-                                defs_seen[nm] = defs_seen.get(nm, 0) + 1
+                            txt = fh.read()
                     except (UnicodeDecodeError, OSError):
-                        pass
-        multi = tuple(sorted(k for k, v in defs_seen.items() if v > 1))
+                        continue
+                    texts.append(txt)
+                    for nm in _re.findall(r"^\s*(?:async\s+)?def\s+(_[A-Za-z0-9_]*)\s*\(", txt, flags=_re.M):
+                        defs_seen[nm] = defs_seen.get(nm, 0) + 1
+        # a private name is "shared" when it is defined more than once or mentioned in more than one file
+        files_mentioning: Dict[str, int] = {}
+        for t_ in texts:
+            for nm in set(_re.findall(r"\b_[A-Za-z0-9_]*\b", t_)):
+                files_mentioning[nm] = files_mentioning.get(nm, 0) + 1
+        multi = tuple(sorted(k for k, v in defs_seen.items() if v > 1 or files_mentioning.get(k, 0) > 1))
         for dirpath, dirnames, filenames in os.walk(base):
             dirnames[:] = sorted(d for d in dirnames if d != "__pycache__")
             for fn in sorted(filenames):
